@@ -836,3 +836,7 @@ pub fn replay_c19(_sub: &str, case: &Value) -> Option<CheckResult> {
         _ => None,
     }
 }
+
+pub fn fuzz_text(ty: &str, text: &str) -> Result<bool, Fail> {
+    check_tree_text(ty, text)
+}
